@@ -227,13 +227,19 @@ COORDS = {
     'wire': [[0.0, 0.0, -50.0], [100.0, 20.5, -50.0], [150.0, 120.0, -70.25],
              [0.0, 100.0, -60.0]],
 }
+COORDS2 = {
+    'point': (0.0, 0.0, 0.0, 0.0, 0.0),
+    'flat': (-10.0, -10.0, 5.0, 5.0, -1.0, 1.0),
+    'dipole': [[-0.5, 0.0, 0.0], [0.5, 0.0, 0.0]],
+    'wire': [[0.0, 0.0, 0.0], [0.0, 0.0, -100.0]],
+}
 STRENGTH = {'default': None, 'real': 75.5, 'complex': 3.5 - 2.25j, 'int': 2}
 
 
 def make_txrx(spec):
     import emg3d
     cls = getattr(emg3d, spec['cls'])
-    coo = COORDS[spec['fmt']]
+    coo = (COORDS2 if spec.get('alt') else COORDS)[spec['fmt']]
     kw = {}
     if spec['cls'].startswith('Tx'):
         if STRENGTH[spec.get('strength', 'default')] is not None:
@@ -253,7 +259,8 @@ def make_mesh(spec):
 
 def make_model(spec):
     grid = make_mesh(spec)
-    return zoo.model(grid, {'case': spec['case'], 'prof': 'rnd',
+    return zoo.model(grid, {'case': spec['case'],
+                            'prof': spec.get('prof', 'rnd'),
                             'mapping': spec['mapping'],
                             'mu_r': spec.get('mu_r'),
                             'eps_r': spec.get('eps_r')})
@@ -413,7 +420,6 @@ def make_simulation(spec, tmp):
 
 
 def nested(variant, tmp):
-    import emg3d
     leaves = {
         'int': 7, 'negint': -3, 'float': 2.5, 'nan': float('nan'),
         'complex': 1.5 - 2.25j, 'str': 'some text', 'empty_str': '',
@@ -511,6 +517,21 @@ def zoo_specs(tier):
                 for rel in (False, True):
                     out.append({'kind': 'txrx', 'cls': cls, 'fmt': fmt,
                                 'relative': rel})
+    if tier != 'quick':
+        for mapping in zoo.MAPPINGS:
+            for case in zoo.CASES:
+                out.append({'kind': 'model', 'mapping': mapping,
+                            'case': case, 'mu_r': case == 'VTI',
+                            'eps_r': case == 'HTI', 'shape': (3, 1, 2),
+                            'prof': 'lay'})
+        for cls, fmts in TXRX.items():
+            for fmt in fmts:
+                if cls.startswith('Tx'):
+                    out.append({'kind': 'txrx', 'cls': cls, 'fmt': fmt,
+                                'strength': 'complex', 'alt': True})
+                else:
+                    out.append({'kind': 'txrx', 'cls': cls, 'fmt': fmt,
+                                'relative': True, 'alt': True})
     for v in ('empty', 'scalar-noise', 'array-noise', 'explicit-std',
               'mixed-txrx', 'noisy', 'no-receivers'):
         out.append({'kind': 'survey', 'variant': v})
@@ -672,12 +693,23 @@ def save_guard(obj, spec, fname, method, fmt, viol, where):
         return False
 
 
-def narrow(spec, viol):
-    """Narrow classes for the receiver-less survey (its own finding)."""
+def narrow(spec, viol, formats=()):
+    """Narrow classes: the receiver-less survey is its own finding; the
+    format-specific findings (npz drops empty dicts, json loses the shape of
+    zero-size arrays) keep their plain class name only if that format was
+    involved, so that the same symptom in another format is still new."""
+    formats = set(formats)
+    for v in viol:
+        if v['cls'] == 'empty-dict-dropped' and 'npz' not in formats:
+            v['cls'] = 'empty-dict-dropped-without-npz'
+        if v['cls'] == 'zero-size-array-shape-lost' and 'json' not in formats:
+            v['cls'] = 'zero-size-array-shape-lost-without-json'
     if spec['kind'] == 'survey' and spec.get('variant') == 'no-receivers':
         for v in viol:
             if not v['cls'].startswith('survey-without-receivers-'):
                 v['cls'] = 'survey-without-receivers-' + v['cls']
+            if not formats & {'npz', 'json'}:
+                v['cls'] += '-without-npz-or-json'
 
 
 def describe(spec):
@@ -715,7 +747,7 @@ def roundtrip(c):
                 if spec['kind'] == 'simulation' and \
                         type(loaded).__name__ == 'Simulation':
                     sim_behaviour(obj, loaded, spec, where, viol, stats)
-    narrow(spec, viol)
+    narrow(spec, viol, [fmt])
     return {'viol': viol, 'compared': stats['compared'], 'transitions': 2,
             'nontrivial': ok, 'outcome': (spec['kind'], fmt, ok, ndiff,
                                           tuple(sorted({v['cls']
@@ -770,7 +802,7 @@ def chain(c):
                 not viol and c.get('behaviour'):
             sim_behaviour(obj, loaded, spec, f"{base} {'->'.join(path)}",
                           viol, stats)
-    narrow(spec, viol)
+    narrow(spec, viol, path)
     return {'viol': viol, 'compared': stats['compared'],
             'transitions': 1 + done, 'nontrivial': done > 0,
             'outcome': (spec['kind'], start, tuple(steps[:done]),
